@@ -9,5 +9,7 @@ CONSTANTS
   Recheck = TRUE
   Post = "forget"
   Record = "always"
+  Breaks = TRUE
+  Blind = FALSE
   Export = TRUE
 INVARIANTS Emit
